@@ -49,9 +49,9 @@ CHECKS = {
     },
     "C03": {
         "bin": "c03",
-        "quick": cfgs(["dflt", "cmp", "p2", "rdx", "cmprdxfmt"]),
-        "thorough": cfgs(["dflt", "cmp", "p2", "cmprdxfmt"]) + cfgs(["rdx"], args=["--all32"]),
-        "rule": "PAIRS (32..128-bit types): every pair of adjacent digits (a,b) at every position of the all-ones numeral of every length, and ascending/descending digit patterns of every length, every radix; integer value family INT(T, r): every value of the 8/16-bit types; for wider types r^k-1, r^k, r^k+1, 2^j-1, 2^j, 2^j+1, "
+        "quick": cfgs(["dflt", "cmp", "p2", "rdx", "fmt", "rdxfmt", "cmprdxfmt"]),
+        "thorough": cfgs(["dflt", "cmp", "p2", "fmt", "rdxfmt", "cmprdxfmt"]) + cfgs(["rdx"], args=["--all32"]),
+        "rule": "in the feature sets with `format`, every INT value also under the same radix with required_mantissa_sign ('+' for non-negative values) into a buffer of exactly buffer_size_const bytes; PAIRS (32..128-bit types): every pair of adjacent digits (a,b) at every position of the all-ones numeral of every length, and ascending/descending digit patterns of every length, every radix; integer value family INT(T, r): every value of the 8/16-bit types; for wider types r^k-1, r^k, r^k+1, 2^j-1, 2^j, 2^j+1, "
                 "MIN/MAX neighbourhoods, all sparse numerals (<= 2 or 3 non-zero digit positions, digits 1 and r-1) and all-(r-1) numerals of "
                 "every length; x every supported radix x 12 types; each written into a buffer of exactly FORMATTED_SIZE(_DECIMAL) bytes placed "
                 "flush against a trailing and a leading guard page with canaries; output compared byte for byte with the reference numeral "
@@ -117,9 +117,9 @@ CHECKS = {
     },
     "C19": {
         "bin": "c19",
-        "quick": cfgs(["dflt", "cmp", "rdx", "cmprdxfmt"]),
-        "thorough": cfgs(["dflt", "cmp", "rdx", "cmprdxfmt", "rdxfmt", "p2"]),
-        "rule": "the C01/C05 string families (S incl. ungrammatical strings, ME, MEV, CF, HW, BD, per radix and mixed-base format) with lossy(true) "
+        "quick": cfgs(["dflt", "cmp", "rdx", "cmprdxfmt"]) + cfgs(["rdx"], profile="reldbg"),
+        "thorough": cfgs(["dflt", "cmp", "rdx", "cmprdxfmt", "rdxfmt", "p2"]) + cfgs(["dflt", "rdx", "cmprdxfmt"], profile="reldbg"),
+        "rule": "release and debug-assertion profiles; a lossless zero result stays zero; the C01/C05 string families (S incl. ungrammatical strings, ME, MEV, CF, HW, BD, per radix and mixed-base format) with lossy(true) "
                 "against the non-lossy call on the same input: identical acceptance, error kind and index, consumed count; lossy value within one "
                 "ULP of the exactly computed correctly rounded value (infinity counts as the neighbour of the largest finite float); literal zeros "
                 "and decimal inputs with <= 15 (f64) / 7 (f32) digits and |exponent| <= 22 / 10 unchanged; non-trivial = accepted inputs",
